@@ -18,12 +18,13 @@ EXPLANATION = (
     "(len, name)(i) < (len, name)(j) (strictly increasing in length-then-alphabetical order, hence injective), every character is in A-Z, "
     "name(0) = 'A', and len(name(i)) = L exactly for S_L <= i < S_{L+1} (S_L = 26 + ... + 26^(L-1)): a strictly increasing map between two finite "
     "sets of equal size is the length-then-alphabetical enumeration. 'Confirmed over all paths' is required; a reachability twin (post: False) must be "
-    "refuted. Hex colours: Engine A runs the real hex2rgb / hex2rgbstr / hex2html on a symbolic string of 3 or 6 hex digits (each character a "
+    "refuted. Call histories (round 4): from the module state of a fresh process (module-level data of labella.utils is restored at the start of every explored path) "
+    "the names asked for in the order i, i+1, i and j, i, j are increasing / repeatable, so a name does not depend on what was asked before. Hex colours: Engine A runs the real hex2rgb / hex2rgbstr / hex2html on a symbolic string of 3 or 6 hex digits (each character a "
     "symbolic code point constrained to 0-9a-fA-F, optional '#'): z3 proves that the triple, the three printed numbers of 'rgb(r, g, b)' (exact "
     "literal shape) and the value of the 6 upper-case digits of hex2html all denote the same colour (also as the second conversion after an arbitrary 3-/6-digit code in the same process), that 3-digit codes equal the digit-doubled "
     "6-digit code, and that hex2html's characters are upper-case hex digits. One query family covers all 22^3 and 22^6 codes."
 )
-BOUNDS = {"quick": dict(int2name="0 <= i < j <= 10^6, 30 s per condition", hex="all 3- and 6-digit codes over 0-9a-fA-F, with and without '#'; two-conversion histories 3-then-6 and 6-then-3 digits (6-digit code over 0-9a-f in quick)"), "thorough": dict(int2name="0 <= i < j <= 10^7, 120 s per condition")}
+BOUNDS = {"quick": dict(int2name="0 <= i < j <= 10^6, 30 s per condition; call histories (i, i+1, i) and (j, i, j), each starting from the module state of a fresh process", hex="all 3- and 6-digit codes over 0-9a-fA-F, with and without '#'; two-conversion histories 3-then-6 and 6-then-3 digits (6-digit code over 0-9a-f in quick)"), "thorough": dict(int2name="0 <= i < j <= 10^7, 120 s per condition")}
 OUTSIDE = ["indices above the stated bound", "non-hex input (undocumented)"]
 ASSUMPTIONS = ["CrossHair's model of int / str / chr", "Engine A: int(s, 16) modelled per character class; str.upper() modelled for ASCII"]
 
